@@ -184,6 +184,126 @@ fn main() {
                 }
             }
         }
+        "record-syntax" => {
+            // C14: groups = one generated program rendered under the canonical style (line B) and
+            // under the style vectors enumerated by MC_Syntax (--styles: one JSON style per line),
+            // plus per-occurrence mixed styles.  Each line carries the parse tree printed by
+            // `parse-tree --print-json` (locations removed) and the verdicts of run_checks.
+            let seed: u64 = m.get("seed").and_then(|s| s.parse().ok()).unwrap_or(1);
+            let n: usize = m.get("n").and_then(|s| s.parse().ok()).unwrap_or(100);
+            let per: usize = m.get("per").and_then(|s| s.parse().ok()).unwrap_or(8);
+            let cfg = cfg_of(m.get("cfg").map(|s| s.as_str()).unwrap_or("core"));
+            let out = m.get("out").expect("--out");
+            let styles: Vec<J> = std::fs::read_to_string(m.get("styles").expect("--styles"))
+                .unwrap()
+                .lines()
+                .filter(|l| !l.trim().is_empty())
+                .map(|l| serde_json::from_str(l).unwrap())
+                .collect();
+            let singles: Vec<&J> = styles.iter().filter(|s| s["nd"] == 1).collect();
+            let others: Vec<&J> = styles.iter().filter(|s| s["nd"] != 1 && s["nd"] != 0).collect();
+            let mut f = std::io::BufWriter::new(std::fs::File::create(out).unwrap());
+            let mut r = Rng::new(seed);
+            let mut i = 0usize;
+            for grp in 1..=n {
+                let mut rr = r.fork();
+                let (doc, mut prog) = {
+                    let mut g = gen::Gen { r: &mut rr, cfg: cfg.clone() };
+                    let doc = g.doc();
+                    let prog = g.program(&doc);
+                    (doc, prog)
+                };
+                // every third program: the first rule becomes the default rule when its body can be
+                // written as bare clauses
+                let mut has_default = false;
+                let first = prog["rules"][0]["n"].as_str().unwrap().to_string();
+                let first_unique = prog["rules"].as_array().unwrap().iter().filter(|r| r["n"] == first.as_str()).count() == 1;
+                if grp % 3 == 0 && first_unique && gv::xform::bare_ok(&prog["rules"][0]) && !gv::xform::is_referenced(&prog, &first) {
+                    let old = first.clone();
+                    gv::xform::rename_rule(&mut prog, &old, "default");
+                    has_default = true;
+                }
+                let has_type = gv::xform::has_plain_type_block(&prog);
+                let data = val::to_json_text(&doc);
+                let mut emit = |var: &str, st: &J, style: &render::Style, i: &mut usize| {
+                    let text = render::render_file_with(&prog, style);
+                    let mut obs = exec::observe(&text, &data, false);
+                    if obs["kind"] == "ok" {
+                        let t = exec::status_tree(&obs["tree"]);
+                        obs["tree"] = t;
+                    }
+                    let pt = exec::parse_tree(&text);
+                    *i += 1;
+                    let ptk = if pt["kind"] == "ok" { pt["ast"].to_string() } else { format!("!{}", pt) };
+                    let ptn = if pt["kind"] == "ok" {
+                        let mut a = pt["ast"].clone();
+                        exec::strip_leading_this(&mut a);
+                        a.to_string()
+                    } else {
+                        ptk.clone()
+                    };
+                    let mut line = json!({"i": *i, "grp": grp, "var": var, "style": st, "obs": obs,
+                                          "pt": gv::xform::digest(&ptk), "ptn": gv::xform::digest(&ptn),
+                                          "ptkind": pt["kind"], "text": text});
+                    if var == "B" || var == "TQ" {
+                        // TQ lines are judged against the denotation of the rewritten program
+                        let p = if var == "TQ" { gv::xform::type_to_query(&prog) } else { prog.clone() };
+                        if var == "TQ" {
+                            // the text written under the style is the rewritten program
+                            let t2 = exec::parse_tree(&render::render_file(&p));
+                            line["tq_text_ok"] = json!(t2["kind"] == "ok" && pt["kind"] == "ok" && t2["ast"] == pt["ast"]);
+                        }
+                        if cfg.functions {
+                            line["tab"] = gv::oracle::table(&p, &doc);
+                        }
+                        line["prog"] = p;
+                        line["doc"] = doc.clone();
+                    }
+                    line["file"] = json!("r.guard");
+                    if pt["kind"] != "ok" {
+                        line["pterr"] = pt.clone();
+                    }
+                    writeln!(f, "{}", line).unwrap();
+                };
+                let canon = render::Style::default();
+                emit("B", &json!({"nd": 0}), &canon, &mut i);
+                // every single-class deviation, then sampled combinations, then mixed occurrences
+                for s in &singles {
+                    let st = render::Style::from_json(s);
+                    if st.type_as_query && !has_type {
+                        continue;
+                    }
+                    emit(if st.type_as_query { "TQ" } else { "SY" }, s, &st, &mut i);
+                }
+                for _ in 0..per {
+                    if others.is_empty() {
+                        break;
+                    }
+                    let s = others[rr.below(others.len())];
+                    let mut sj = (*s).clone();
+                    sj["tq"] = json!(false);
+                    let st = render::Style::from_json(&sj);
+                    emit("SY", &sj, &st, &mut i);
+                }
+                for k in 0..3u64 {
+                    let s = others[rr.below(others.len())];
+                    let mut sj = (*s).clone();
+                    sj["tq"] = json!(false);
+                    sj["mix"] = json!(1 + rr.below(1_000_000) as u64 + k);
+                    let st = render::Style::from_json(&sj);
+                    emit("SY", &sj, &st, &mut i);
+                }
+                if has_default {
+                    for k in 0..2u64 {
+                        let mut sj = if k == 0 { json!({"nd": 1}) } else { (*others[rr.below(others.len())]).clone() };
+                        sj["tq"] = json!(false);
+                        sj["bare"] = json!(true);
+                        let st = render::Style::from_json(&sj);
+                        emit("BD", &sj, &st, &mut i);
+                    }
+                }
+            }
+        }
         "record-events" => {
             // hook-event stream of many evaluations, flattened (TraceMemo)
             let seed: u64 = m.get("seed").and_then(|s| s.parse().ok()).unwrap_or(1);
